@@ -860,6 +860,14 @@ V("C20", "rlimit-unavailable-on-freebsd", BSD,
 V("C20", "benign-bsd-map-and-c-consistent", BSD,
   ("    read_io_count=12,\n    write_io_count=13,", "    read_io_count=12,\n    write_io_count=13,  # unchanged"), "silent")
 
+V("C20", "mac-padding-into-unused-copy", I,
+  ("            while addr.count(separator) < 5:\n                addr += f\"{separator}00\"",
+   "            mac = addr\n            while mac.count(separator) < 5:\n                mac += f\"{separator}00\""),
+  "fires:C20.R6")
+V("C20", "benign-mac-padding-helper", I,
+  [("def net_if_addrs():", "def _pad_mac(mac, sep):\n    while mac.count(sep) < 5:\n        mac = mac + f\"{sep}00\"\n    return mac\n\n\ndef net_if_addrs():"),
+   ("            while addr.count(separator) < 5:\n                addr += f\"{separator}00\"",
+    "            addr = _pad_mac(addr, separator)")], "silent")
 # ----------------------------------------------------------------- C17
 UC = "psutil/arch/linux/users.c"
 PC = "psutil/arch/linux/proc.c"
@@ -876,6 +884,15 @@ V("C17", "defect-F14-returns", PC,
 V("C17", "utmp-bound-from-other-field", UC,
   ("            ut->ut_line, strnlen(ut->ut_line, sizeof(ut->ut_line)));",
    "            ut->ut_line, strnlen(ut->ut_line, sizeof(ut->ut_host)));"), "fires:C17.R2")
+V("C17", "benign-utmp-decode-helper", UC,
+  [("PyObject *\npsutil_users(PyObject *self, PyObject *args) {", 'static PyObject *\npsutil_decode_field(const char *field, size_t width) {\n    return PyUnicode_DecodeFSDefaultAndSize(field, strnlen(field, width));\n}\n\n\nPyObject *\npsutil_users(PyObject *self, PyObject *args) {'),
+   ('        py_tty = PyUnicode_DecodeFSDefaultAndSize(\n            ut->ut_line, strnlen(ut->ut_line, sizeof(ut->ut_line)));', "        py_tty = psutil_decode_field(ut->ut_line, sizeof(ut->ut_line));")], "silent")
+V("C17", "utmp-decode-helper-unbounded", UC,
+  [("PyObject *\npsutil_users(PyObject *self, PyObject *args) {", 'static PyObject *\npsutil_decode_field(const char *field, size_t width) {\n    return PyUnicode_DecodeFSDefault(field);\n}\n\n\nPyObject *\npsutil_users(PyObject *self, PyObject *args) {'),
+   ('        py_tty = PyUnicode_DecodeFSDefaultAndSize(\n            ut->ut_line, strnlen(ut->ut_line, sizeof(ut->ut_line)));', "        py_tty = psutil_decode_field(ut->ut_line, sizeof(ut->ut_line));")], "fires:C17.R2")
+V("C17", "utmp-decode-helper-wrong-width", UC,
+  [("PyObject *\npsutil_users(PyObject *self, PyObject *args) {", 'static PyObject *\npsutil_decode_field(const char *field, size_t width) {\n    return PyUnicode_DecodeFSDefaultAndSize(field, strnlen(field, width));\n}\n\n\nPyObject *\npsutil_users(PyObject *self, PyObject *args) {'),
+   ('        py_tty = PyUnicode_DecodeFSDefaultAndSize(\n            ut->ut_line, strnlen(ut->ut_line, sizeof(ut->ut_line)));', "        py_tty = psutil_decode_field(ut->ut_line, sizeof(ut->ut_host));")], "fires:C17.R2")
 V("C17", "format-long-for-int", "psutil/arch/linux/mem.c",
   ("        \"(kkkkkkI)\",", "        \"(kkkkkkk)\","), "fires:C17.R1")
 V("C17", "format-missing-unit", UC,
